@@ -335,3 +335,149 @@ theorem gram_rel (ip : Vec K → Vec K → K) (L : Nat) (R R' : FArr (Vec K)) (M
       (mem_range_drop_iff _ _ _).mpr ⟨by omega, by omega⟩, rfl⟩
 
 end Amgcl.Solver.BiCGStabL
+
+namespace Amgcl.Solver.BiCGStabL
+open Amgcl Amgcl.Solver Amgcl.Solver.QR
+set_option linter.unusedSectionVars false
+set_option linter.unusedSimpArgs false
+set_option linter.unusedVariables false
+
+variable {K : Type} [Field K] [DecidableEq K] [LT K] [DecidableLT K]
+
+/-- the convex combination of the two polynomials (bicgstabl.hpp:336-365) as a function of `MZb`, `Y0`, `YL` -/
+def convexY (sqrt : K → K) (c07 : K) (L : Nat) (MZb : FArr2 K) (Y0 YL : FArr K) : FArr K :=
+  let dots := (List.range (L + 1)).foldl (fun (d : K × K × K) i =>
+      let ss := (List.range (L + 1)).foldl (fun (s : K × K) j =>
+          let M := MZb.get i j
+          (s.1 + M * Y0.get j, s.2 + M * YL.get j)) ((0 : K), (0 : K))
+      (d.1 + Y0.get i * ss.1, d.2.1 + YL.get i * ss.1, d.2.2 + YL.get i * ss.2)) ((0 : K), (0 : K), (0 : K))
+  let dot0 := dots.1
+  let dotA := dots.2.1
+  let dot1 := dots.2.2
+  let kappa0 := sqrt (absK dot0)
+  let kappa1 := sqrt (absK dot1)
+  let kappaA := dotA
+  if kappa0 ≠ 0 ∧ kappa1 ≠ 0 then
+    let ghat :=
+      if kappaA < c07 * kappa0 * kappa1 then
+        (if kappaA < 0 then (-c07) * kappa0 / kappa1 else c07 * kappa0 / kappa1)
+      else kappaA / (kappa1 * kappa1)
+    (List.range (L + 1)).foldl (fun Y i => setF Y i (Y.get i - ghat * YL.get i)) Y0
+  else Y0
+
+theorem convexY_rel (sqrt : K → K) (c07 : K) (L : Nat) (MZb MZb' : FArr2 K) (Y0 Y0' YL YL' : FArr K)
+    (hM : ∀ a b, a ≤ L → b ≤ L → MZb.get a b = MZb'.get a b)
+    (h0 : Agree1 (fun k => k ≤ L) Y0 Y0') (hL : Agree1 (fun k => k ≤ L) YL YL') :
+    Agree1 (fun k => k ≤ L) (convexY sqrt c07 L MZb Y0 YL) (convexY sqrt c07 L MZb' Y0' YL') := by
+  have hdots : (List.range (L + 1)).foldl (fun (d : K × K × K) i =>
+      let ss := (List.range (L + 1)).foldl (fun (s : K × K) j =>
+          let M := MZb.get i j
+          (s.1 + M * Y0.get j, s.2 + M * YL.get j)) ((0 : K), (0 : K))
+      (d.1 + Y0.get i * ss.1, d.2.1 + YL.get i * ss.1, d.2.2 + YL.get i * ss.2)) ((0 : K), (0 : K), (0 : K))
+    = (List.range (L + 1)).foldl (fun (d : K × K × K) i =>
+      let ss := (List.range (L + 1)).foldl (fun (s : K × K) j =>
+          let M := MZb'.get i j
+          (s.1 + M * Y0'.get j, s.2 + M * YL'.get j)) ((0 : K), (0 : K))
+      (d.1 + Y0'.get i * ss.1, d.2.1 + YL'.get i * ss.1, d.2.2 + YL'.get i * ss.2)) ((0 : K), (0 : K), (0 : K)) := by
+    apply foldl_range_congr
+    intro i hi d
+    have hss : (List.range (L + 1)).foldl (fun (s : K × K) j =>
+          let M := MZb.get i j
+          (s.1 + M * Y0.get j, s.2 + M * YL.get j)) ((0 : K), (0 : K))
+        = (List.range (L + 1)).foldl (fun (s : K × K) j =>
+          let M := MZb'.get i j
+          (s.1 + M * Y0'.get j, s.2 + M * YL'.get j)) ((0 : K), (0 : K)) := by
+      apply foldl_range_congr
+      intro j hj s
+      simp only []
+      rw [hM i j (by omega) (by omega), h0 j (by show j ≤ L; omega), hL j (by show j ≤ L; omega)]
+    simp only []
+    rw [hss, h0 i (by show i ≤ L; omega), hL i (by show i ≤ L; omega)]
+  unfold convexY
+  simp only []
+  rw [hdots]
+  split
+  · refine foldl_range_rel _ _ (fun _ (Z Z' : FArr K) => Agree1 (fun k => k ≤ L) Z Z') _ _ _ h0 ?_
+    intro i Z Z' hi hZ
+    exact hZ.set _ _ _ (by rw [hZ i (by show i ≤ L; omega), hL i (by show i ≤ L; omega)])
+  · exact h0
+
+/-- `std::copy(MZa.data(), MZa.data() + MZa.size(), MZb.data())` -/
+def mzb (L : Nat) (w : Work K) : FArr2 K := ⟨fun i j => if i ≤ L ∧ j ≤ L then w.MZa.get i j else w.MZb.get i j⟩
+
+/-- the first `qr.solve` of the non-convex branch -/
+def pq0 (sqrt : K → K) (L : Nat) (w : Work K) : FArr2 K × QRSt K × FArr K :=
+  QR.solve sqrt (L - 1) (L - 1) 1 w.MZa w.qr (fun t => (mzb L w).get 0 (1 + t)) (setF (setF w.Y0 0 (-1)) L 0) 1 false
+
+/-- the second `qr.solve` (`computed = true`) of the non-convex branch -/
+def pq1 (sqrt : K → K) (L : Nat) (w : Work K) : FArr2 K × QRSt K × FArr K :=
+  QR.solve sqrt (L - 1) (L - 1) 1 (pq0 sqrt L w).1 (pq0 sqrt L w).2.1 (fun t => (mzb L w).get L (1 + t))
+    (setF (setF w.YL 0 0) L (-1)) 1 true
+
+theorem polyCoef_Y0_convex (sqrt : K → K) (c07 : K) (L : Nat) (convex : Bool) (w : Work K)
+    (hc : convex = true ∨ L = 1) :
+    (polyCoef sqrt c07 L convex w).Y0
+      = (QR.solve sqrt L L 1 w.MZa w.qr (fun t => (mzb L w).get 0 (1 + t)) (setF w.Y0 0 (-1)) 1 false).2.2 := by
+  unfold polyCoef
+  simp only []
+  rw [if_pos hc]
+  rfl
+
+theorem polyCoef_Y0_general (sqrt : K → K) (c07 : K) (L : Nat) (convex : Bool) (w : Work K)
+    (hc : ¬ (convex = true ∨ L = 1)) :
+    (polyCoef sqrt c07 L convex w).Y0
+      = convexY sqrt c07 L (mzb L w) (pq0 sqrt L w).2.2 (pq1 sqrt L w).2.2 := by
+  unfold polyCoef
+  simp only []
+  rw [if_neg hc]
+  rfl
+
+theorem mzb_rel (L : Nat) (w w' : Work K) (hM : ∀ a b, a ≤ L → b ≤ L → w.MZa.get a b = w'.MZa.get a b) :
+    ∀ a b, a ≤ L → b ≤ L → (mzb L w).get a b = (mzb L w').get a b := by
+  intro a b ha hb
+  show (if a ≤ L ∧ b ≤ L then _ else _) = (if a ≤ L ∧ b ≤ L then _ else _)
+  rw [if_pos ⟨ha, hb⟩, if_pos ⟨ha, hb⟩]; exact hM a b ha hb
+
+/-- **`polyCoef` reads `MZa` on `(L+1)×(L+1)` only**: `MZb`, `qr.tau`, `qr.f`, `Y0`, `YL` are overwritten before they
+are read; the coefficients `Y0[0..L]` (all that is used afterwards) agree. -/
+theorem polyCoef_rel (sqrt : K → K) (c07 : K) (L : Nat) (convex : Bool) (w w' : Work K)
+    (hM : ∀ a b, a ≤ L → b ≤ L → w.MZa.get a b = w'.MZa.get a b) :
+    Agree1 (fun k => k ≤ L) (polyCoef sqrt c07 L convex w).Y0 (polyCoef sqrt c07 L convex w').Y0 := by
+  have hMb := mzb_rel L w w' hM
+  by_cases hc : convex = true ∨ L = 1
+  · rw [polyCoef_Y0_convex sqrt c07 L convex w hc, polyCoef_Y0_convex sqrt c07 L convex w' hc]
+    refine (solve_rel sqrt L L 1 (Nat.le_refl _) w.MZa w'.MZa w.qr w'.qr _ _ _ _ 1 false (fun k => k ≤ L)
+      (fun a b hab => hM a b (by have := hab.2.1; omega) (by have := hab.2.2.2; omega))
+      (fun t ht => hMb 0 (1 + t) (by omega) (by omega)) (fun h => by cases h)
+      (fun t ht => by show 1 + t ≤ L; omega) ?_).2.2
+    intro k hk hnot
+    have hk0 : k = 0 := by
+      have : k ≤ L := hk
+      omega
+    subst hk0
+    rw [setF_same, setF_same]
+  · rw [polyCoef_Y0_general sqrt c07 L convex w hc, polyCoef_Y0_general sqrt c07 L convex w' hc]
+    have hA0 : Agree2 (Block 1 (L - 1) (L - 1)) w.MZa w'.MZa :=
+      fun a b hab => hM a b (by have := hab.2.1; omega) (by have := hab.2.2.2; omega)
+    have hYend : ∀ (Y Y' : FArr K) (x y : K) (k : Nat), k ≤ L → ¬ (1 ≤ k ∧ k < 1 + (L - 1)) →
+        (setF (setF Y 0 x) L y).get k = (setF (setF Y' 0 x) L y).get k := by
+      intro Y Y' x y k hk hnot
+      rw [setF_get, setF_get, setF_get, setF_get]
+      by_cases hkL : k = L
+      · simp only [hkL, if_true]
+      · have hk0 : k = 0 := by omega
+        simp only [hkL, hk0, if_true, if_false]
+    obtain ⟨a1, a2, a3⟩ := solve_rel sqrt (L - 1) (L - 1) 1 (Nat.le_refl _) w.MZa w'.MZa w.qr w'.qr
+      (fun t => (mzb L w).get 0 (1 + t)) (fun t => (mzb L w').get 0 (1 + t))
+      (setF (setF w.Y0 0 (-1)) L 0) (setF (setF w'.Y0 0 (-1)) L 0) 1 false (fun k => k ≤ L) hA0
+      (fun t ht => hMb 0 (1 + t) (by omega) (by omega)) (fun h => by cases h)
+      (fun t ht => by show 1 + t ≤ L; omega) (fun k hk hnot => hYend _ _ _ _ k hk hnot)
+    obtain ⟨b1, b2, b3⟩ := solve_rel sqrt (L - 1) (L - 1) 1 (Nat.le_refl _) (pq0 sqrt L w).1 (pq0 sqrt L w').1
+      (pq0 sqrt L w).2.1 (pq0 sqrt L w').2.1
+      (fun t => (mzb L w).get L (1 + t)) (fun t => (mzb L w').get L (1 + t))
+      (setF (setF w.YL 0 0) L (-1)) (setF (setF w'.YL 0 0) L (-1)) 1 true (fun k => k ≤ L) a1
+      (fun t ht => hMb L (1 + t) (by omega) (by omega)) (fun _ => a2)
+      (fun t ht => by show 1 + t ≤ L; omega) (fun k hk hnot => hYend _ _ _ _ k hk hnot)
+    exact convexY_rel sqrt c07 L _ _ _ _ _ _ hMb a3 b3
+
+end Amgcl.Solver.BiCGStabL
